@@ -249,6 +249,29 @@ func cmdCheck(args []string) int {
 	os.RemoveAll(smtDir)
 	os.MkdirAll(smtDir, 0o755)
 	p.u.SolveAll(obls, smtDir, timeoutS, thorough, *par)
+	// second chance for a few undecided obligations (no model, no verdict): the same queries again on an idle machine
+	// with three times the time limit. A proof close to the limit otherwise depends on machine load; a real failure
+	// stays undecided (and many undecided obligations are not a load problem: no retry then).
+	var again []*Obligation
+	for _, o := range obls {
+		if !o.Cover && o.Result != nil && (o.Result.Status == "unknown" || o.Result.Status == "timeout") {
+			again = append(again, o)
+		}
+	}
+	if len(again) > 0 && len(again) <= 4 && os.Getenv("GOVC_NO_RETRY") == "" {
+		for _, o := range again {
+			first := o.Result
+			o.Result = nil
+			r := p.u.Solve(o, smtDir, 3*timeoutS, false)
+			if r.Status == "unsat" {
+				r.Backend += "+retry"
+				r.Ms += first.Ms
+				o.Result = r
+			} else {
+				o.Result = first
+			}
+		}
+	}
 
 	// classify
 	type sample struct {
